@@ -90,7 +90,7 @@ def run(W, p):
     if p.get("roms"):
         from harness import c14
 
-        c14._files(W, tmp, T0, c14._uvals(W))
+        c14._files(W, tmp, T0, c14._uvals(W), frames=[-1, 1, 2, 6])  # a long last interval: a wrong slope after a restart shows in the records
         x0 = W.frac(11, 4)  # start position inside the 6x6 ROMS grid; depth symbolic below
     else:
         x0 = W.real("x0", 6, 14)
